@@ -382,10 +382,8 @@ def run(ctx):
     ctx.ob("E1", EXP, "get_csr_svd", "one 4-byte step per emitted register", ok, "" if ok else f"{len(adv)} advance sites", sv)
 
     # ============================================================ E2
+    csr_bus_window(ctx, "E2")
     fb = soc.method("SoC", "add_csr_bridge")
-    sz = [norm(n.value) for n in ast.walk(fb) if isinstance(n, ast.Assign) and norm(n.targets[0]) == "csr_size"]
-    ok = sz == ["2 ** (self.csr.address_width + 2)"]
-    ctx.ob("E2", SOC, "SoC.add_csr_bridge", "bus window = 2**(aw+2) bytes (4 bytes per CSR word)", ok, "" if ok else f"csr_size = {sz}", fb)
     ok = any(isinstance(n, ast.Call) and norm(n.func) == "SoCRegion" and any(k.arg == "size" and norm(k.value) == "csr_size" for k in n.keywords)
              for n in ast.walk(fb))
     ctx.ob("E2", SOC, "SoC.add_csr_bridge", "the window size is the region size handed to the bus", ok, "" if ok else "csr_size not used", fb)
@@ -797,6 +795,34 @@ def _axi_lite_port_address(ctx, rid="E9"):
             ok = B.entails(G, B.A(want))
             ctx.ob(rid, AL, "axi_lite_to_simple", f"{a.v} used only when {want}", ok, "" if ok else f"under {B.show(G)}", a.line)
 
+
+
+def csr_bus_window(ctx, rid):
+    """SoC.add_csr_bridge: the `csr` bus region spans 4 bytes for each of the 2**address_width CSR words, whatever the CSR data width is
+    (expression evaluated by value).  Shared with C13: SoCCSRHandler grants 2**address_width * 4 // paging pages; a narrower window
+    leaves granted pages outside the decoded region, where another slave can be allocated."""
+    from .. import pyconst
+    soc = ctx.mod(SOC)
+    fb = soc.method("SoC", "add_csr_bridge")
+    szs = [n.value for n in ast.walk(fb) if isinstance(n, ast.Assign) and norm(n.targets[0]) == "csr_size"]
+    bad = None
+    n = 0
+    if len(szs) != 1:
+        bad = f"{len(szs)} assignments to csr_size"
+    else:
+        for aw in (12, 14, 16):
+            for dw in (8, 32):
+                env = {"self": pyconst.NS(csr=pyconst.NS(address_width=aw, data_width=dw, alignment=32, paging=0x800))}
+                try:
+                    got = pyconst.Interp(env, exact=True).ev(szs[0])
+                except Exception as ex:      # noqa
+                    got = f"<{type(ex).__name__}>"
+                n += 1
+                if got != 2 ** (aw + 2) and bad is None:
+                    bad = f"csr_size = {norm(szs[0])} = {got if not isinstance(got, int) else hex(got)} for address_width {aw}, data_width {dw}: the CSR handler " \
+                          f"grants pages up to {2 ** (aw + 2):#x} (4 bytes per CSR word): pages above the window are published but not decoded, and the " \
+                          f"range is free for another slave"
+    ctx.ob(rid, SOC, "SoC.add_csr_bridge", "bus window = 2**(aw+2) bytes (4 bytes per CSR word)", bad is None, bad or "", szs[0] if szs else fb)
 
 
 def _e10(ctx, rid="E10"):
